@@ -342,6 +342,16 @@ def node_src(n):
             return '<dtml-var %s>' % n['site']
         return '<dtml-var %s>' % ref(c)
     if k == 'sub':
+        how = n.get('how', 'var')
+        if how == 'kw':         # explicit call, extra keyword frame
+            return '<dtml-var expr="%s(None, _, kwx=1)">' % n['name']
+        if how == 'client':     # explicit call with a client object
+            return ('<dtml-var expr="%s(_.namespace(cl=5)[0], _)">'
+                    % n['name'])
+        if how == 'call':
+            return '<dtml-call %s>' % n['name']
+        if how == 'if':
+            return '<dtml-if %s></dtml-if>' % n['name']
         return '<dtml-var %s>' % n['name']
     if k == 'if':
         out = []
